@@ -562,6 +562,11 @@ def run(ctx):
             obj.update(extra)
             violations.append({"what": "C20 stress (%s): %s" % (sig, what[:900]), "found_input": True, "replay_obj": obj})
 
+    # ---- the gossip receive loop, datagrams back to back, under the race detector
+    from props import gossip_common as gc
+    bv, bcov = gc.burst_race_probe(ID, wd, random.Random(ctx["seed"]), 8 if not thorough else 60)
+    violations += bv
+
     # ---- thorough: the extractor against recorded lock nestings
     validation = None
     if thorough:
@@ -596,7 +601,7 @@ def run(ctx):
         "correspondence": {"harness": "harness/lockorder (model regenerated from source) + harness/stress (-race, watchdog %d ms)" % 10000,
                            "histories": len(sres.get("runs", [])), "ops": total_ops, "distribution": ops_mix,
                            "disagreements": len([v for v in violations if not v["found_input"]]), "seed": ctx["seed"], "runs": stress_cov,
-                           "extractor_validation": validation},
+                           "extractor_validation": validation, "receive_loop_race_probe": bcov},
         "monitor": {"histories": len(sres.get("runs", [])), "failures": len([v for v in violations if v["found_input"]]),
                     "checks": ["no call exceeds the watchdog", "no panic", "no race report", "registry == routing table == published == harness ledger at quiescence"]},
     })
@@ -624,6 +629,12 @@ def replay(path, wd):
                 print(r)
         print("(schedules are not replayable exactly: the same seed and configuration are re-run under the race detector)")
         return 1 if bad else 0
+    if kind == "burst-race":
+        from props import gossip_common as gc
+        binary = build_harness("pkg/gossip", race=True, dirs=["gossip"])
+        out, logtxt = run_harness(binary, {"mode": "world", "cases": obj.get("cases") or [obj["case"]]}, wd, tag="replay", timeout=900)
+        print("clean" if out is not None else logtxt[-5000:])
+        return 0 if out is not None else 1
     ext = build_extractor(wd)
     rep, _ = run_extractor(ext, wd, tag="replay")
     edges = [(e["from"], e["to"]) for e in rep["edges"]]
